@@ -424,7 +424,7 @@ def shape_accepted_iff_columns_match(n: int, alldef: bool, dnull: tuple[bool, bo
 _NB = pick(2, 3)
 
 
-@cond(q=200, t=500, encoded=_ENCODED_SITES, stubs=_STUBS, replay=lambda a: _replay_b(a), signature=_sig("values"),
+@cond(q=200, t=1000, encoded=_ENCODED_SITES, stubs=_STUBS, replay=lambda a: _replay_b(a), signature=_sig("values"),
       bound="0..%d parameters, each optional-or-not x enum-or-int typed x defaulted-or-not x value None / valid / unknown enum member; request columns equal to the declared ones" % _NB)
 def values_accepted_iff_non_null_and_members(n: int, dopt: tuple[bool, bool, bool], ddef: tuple[bool, bool, bool], den: tuple[bool, bool, bool], rval: tuple[int, int, int]) -> bool:
     """
@@ -439,7 +439,7 @@ _NC = pick(1, 2)
 _NAMES_C = pick(("a", "ctx", "z"), _REQ_NAMES)
 
 
-@cond(q=240, t=900, encoded=_ENCODED_SITES, stubs=_STUBS, replay=lambda a: _replay_c(a), signature=_sig("pipeline"),
+@cond(q=240, t=2000, encoded=_ENCODED_SITES, stubs=_STUBS, replay=lambda a: _replay_c(a), signature=_sig("pipeline"),
       bound="full pipeline, everything symbolic: 0..%d parameters (optional, defaulted, enum/int, 3 type tokens) x 0..2 request columns (name in %r, 3 type tokens, nullable flag, value None/valid/unknown member)" % (_NC, _NAMES_C))
 def request_accepted_iff_conforming(n: int, dopt: tuple[bool, bool, bool], ddef: tuple[bool, bool, bool], den: tuple[bool, bool, bool], dtok: tuple[int, int, int],
                                     m: int, rname: tuple[int, int], rtok: tuple[int, int], rnull: tuple[bool, bool], rval: tuple[int, int]) -> bool:
